@@ -1,10 +1,326 @@
-import GoSup.Model.Port
+import GoSup.Proofs.Port
 import GoSup.Spec.C20
-/-! # C20 — property theorems (ValidatePort) -/
+/-!
+# C20 — property theorems (ValidatePort)
+
+All statements are for byte strings of **any length** over **all 256 byte values**.
+`validatePort` is the model of the repaired code (`validatePortG true`); `validatePortG false` is
+the code as originally pinned, kept to state what was wrong with it.
+-/
 namespace GoSup.Props.C20
 open GoSup.Port
 
 theorem vp_empty : validatePort [] = .error .emptyPort := by
   simp [validatePort, validatePortG]
+
+/-- a plain decimal port: non-empty, digits only, value in 1…65535 (leading zeros allowed) -/
+structure GoodPort (ds : Bytes) : Prop where
+  ne     : ds ≠ []
+  digits : allDigits ds
+  lo     : 1 ≤ valOf ds
+  hi     : valOf ds ≤ 65535
+
+theorem GoodPort.atoi {ds : Bytes} (g : GoodPort ds) : atoi ds = some (valOf ds : Int) := by
+  rw [atoi_digits ds g.ne g.digits]
+  have : valOf ds < 2 ^ 63 := by have := g.hi; omega
+  simp [this]
+
+theorem GoodPort.clean {ds : Bytes} (g : GoodPort ds) : cColon ∉ ds ∧ cLbr ∉ ds ∧ cRbr ∉ ds ∧ cMinus ∉ ds :=
+  ⟨allDigits_not_mem g.digits (by decide), allDigits_not_mem g.digits (by decide),
+   allDigits_not_mem g.digits (by decide), allDigits_not_mem g.digits (by decide)⟩
+
+theorem GoodPort.head {ds : Bytes} (g : GoodPort ds) : (ds.head? == some cMinus) = false := by
+  cases ds with
+  | nil => rfl
+  | cons x xs =>
+    have hx := g.digits x (by simp)
+    have : x ≠ cMinus := digit_ne hx (by decide)
+    simpa using this
+
+/-- the body of `ValidatePort` after the split succeeded -/
+theorem validate_of_split (s h p : Bytes) (n : Nat) (hne : s ≠ [])
+    (hneg : containsSub s [cColon, cMinus] = false)
+    (hpre : (hasPrefix s [cMinus] && !hasByte s cColon) = false)
+    (hsp : splitHostPort (normalise s) = .ok (h, p)) (hat : atoi p = some (n : Int))
+    (hlo : 1 ≤ n) (hhi : n ≤ 65535) : validatePort s = .ok (resultOf true h p) := by
+  have he : s.isEmpty = false := by cases s <;> simp_all
+  simp only [validatePort, validatePortG, he, hneg, hpre, hsp, hat]
+  have h1 : ¬ ((n : Int) < 1) := by omega
+  have h2 : ¬ ((n : Int) > 65535) := by omega
+  simp [h1, h2]
+
+/-- `net.SplitHostPort` on `host:port` with a host free of colons and brackets -/
+theorem split_plain (h p : Bytes) (hc : cColon ∉ h) (hl : cLbr ∉ h) (hr : cRbr ∉ h)
+    (pc : cColon ∉ p) (pl : cLbr ∉ p) (pr : cRbr ∉ p) :
+    splitHostPort (h ++ cColon :: p) = .ok (h, p) := by
+  have hs := splitLast_append h p cColon pc
+  simp only [splitHostPort, hs]
+  have hhead : ∀ c rest, h ++ cColon :: p = c :: rest → (c == cLbr) = false := by
+    intro c rest e
+    cases h with
+    | nil => simp at e; rw [← e.1]; decide
+    | cons x xs =>
+      simp at e; rw [← e.1]
+      have : x ≠ cLbr := fun e' => hl (by simp [e'])
+      simpa using this
+  cases hhp : h ++ cColon :: p with
+  | nil => simp at hhp
+  | cons c rest =>
+    have := hhead c rest hhp
+    simp only [this, Bool.false_eq_true, if_false]
+    have e1 : hasByte h cColon = false := (hasByte_false_iff _ _).mpr hc
+    have e2 : hasByte (c :: rest) cLbr = false := by
+      rw [← hhp]; apply (hasByte_false_iff _ _).mpr
+      simp only [List.mem_append, List.mem_cons, not_or]
+      exact ⟨hl, by decide, pl⟩
+    have e3 : hasByte (c :: rest) cRbr = false := by
+      rw [← hhp]; apply (hasByte_false_iff _ _).mpr
+      simp only [List.mem_append, List.mem_cons, not_or]
+      exact ⟨hr, by decide, pr⟩
+    simp [e1, e2, e3]
+
+/-- `net.SplitHostPort` on `[host]:port` -/
+theorem split_bracket (h p : Bytes) (hl : cLbr ∉ h) (hr : cRbr ∉ h)
+    (pc : cColon ∉ p) (pl : cLbr ∉ p) (pr : cRbr ∉ p) :
+    splitHostPort (cLbr :: (h ++ cRbr :: cColon :: p)) = .ok (h, p) := by
+  have hs : splitLast (cLbr :: (h ++ cRbr :: cColon :: p)) cColon = some (cLbr :: (h ++ [cRbr]), p) := by
+    have := splitLast_append (cLbr :: (h ++ [cRbr])) p cColon pc
+    simpa using this
+  have hf := splitFirst_append h (cColon :: p) cRbr hr
+  simp only [splitHostPort, hs, hf]
+  have e1 : hasByte p cColon = false := (hasByte_false_iff _ _).mpr pc
+  have e2 : hasByte h cLbr = false := (hasByte_false_iff _ _).mpr hl
+  have e3 : hasByte (cColon :: p) cLbr = false := by simp [hasByte, pl]; decide
+  have e4 : hasByte (cColon :: p) cRbr = false := by simp [hasByte, pr]; decide
+  simp [e1, e2, e3, e4]
+
+/-! ## accepted forms -/
+
+/-- `port` -/
+theorem vp_accept_port (ds : Bytes) (g : GoodPort ds) : validatePort ds = .ok (cColon :: ds) := by
+  obtain ⟨c1, c2, c3, c4⟩ := g.clean
+  have hnorm : normalise ds = cColon :: ds := by simp [normalise, (hasByte_false_iff _ _).mpr c1]
+  have hsp : splitHostPort (normalise ds) = .ok ([], ds) := by
+    rw [hnorm]; exact split_plain [] ds (by simp) (by simp) (by simp) c1 c2 c3
+  have hpre : (hasPrefix ds [cMinus] && !hasByte ds cColon) = false := by
+    cases ds with
+    | nil => exact absurd rfl g.ne
+    | cons x xs =>
+      have hx := g.digits x (by simp)
+      have : x ≠ cMinus := digit_ne hx (by decide)
+      simp [hasPrefix, this]
+  have := validate_of_split ds [] ds (valOf ds) g.ne (containsSub_two_false _ _ _ c1) hpre hsp g.atoi g.lo g.hi
+  simpa [resultOf] using this
+
+/-- `:port` and `host:port` (host without colons and brackets; the empty host gives `:port`) -/
+theorem vp_accept_host_port (h ds : Bytes) (g : GoodPort ds)
+    (hc : cColon ∉ h) (hl : cLbr ∉ h) (hr : cRbr ∉ h) :
+    validatePort (h ++ cColon :: ds) = .ok (h ++ cColon :: ds) := by
+  obtain ⟨c1, c2, c3, c4⟩ := g.clean
+  have hmem : cColon ∈ h ++ cColon :: ds := by simp
+  have hnorm : normalise (h ++ cColon :: ds) = h ++ cColon :: ds := by
+    simp [normalise, (hasByte_iff _ _).mpr hmem]
+  have hsp : splitHostPort (normalise (h ++ cColon :: ds)) = .ok (h, ds) := by
+    rw [hnorm]; exact split_plain h ds hc hl hr c1 c2 c3
+  have hneg : containsSub (h ++ cColon :: ds) [cColon, cMinus] = false := by
+    rw [containsSub_two_append, containsSub_two_false _ _ _ hc, containsSub_two_cons, containsSub_two_false _ _ _ c1]
+    have hcm : (cColon == cMinus) = false := by decide
+    simp [g.head, hcm]
+  have hpre : (hasPrefix (h ++ cColon :: ds) [cMinus] && !hasByte (h ++ cColon :: ds) cColon) = false := by
+    simp [(hasByte_iff _ _).mpr hmem]
+  have := validate_of_split _ h ds (valOf ds) (by simp) hneg hpre hsp g.atoi g.lo g.hi
+  rw [this]
+  simp only [resultOf, joinHostPort, (hasByte_false_iff _ _).mpr hc]
+  cases h <;> simp
+
+/-- `[host]:port` — a bracketed host (IPv6 literal, possibly with a zone) keeps its brackets when it
+contains a colon; a bracketed host without one is returned bare -/
+theorem vp_accept_bracketed (h ds : Bytes) (g : GoodPort ds) (hne : h ≠ [])
+    (hl : cLbr ∉ h) (hr : cRbr ∉ h) (hneg : containsSub h [cColon, cMinus] = false) :
+    validatePort (cLbr :: (h ++ cRbr :: cColon :: ds)) = .ok (joinHostPort h ds) := by
+  obtain ⟨c1, c2, c3, c4⟩ := g.clean
+  have hmem : cColon ∈ cLbr :: (h ++ cRbr :: cColon :: ds) := by simp
+  have hnorm : normalise (cLbr :: (h ++ cRbr :: cColon :: ds)) = cLbr :: (h ++ cRbr :: cColon :: ds) := by
+    simp only [normalise, (hasByte_iff _ _).mpr hmem, if_true]
+  have hsp : splitHostPort (normalise (cLbr :: (h ++ cRbr :: cColon :: ds))) = .ok (h, ds) := by
+    rw [hnorm]; exact split_bracket h ds hl hr c1 c2 c3
+  have hneg' : containsSub (cLbr :: (h ++ cRbr :: cColon :: ds)) [cColon, cMinus] = false := by
+    rw [containsSub_two_cons, containsSub_two_append, hneg, containsSub_two_cons, containsSub_two_cons,
+      containsSub_two_false _ _ _ c1]
+    have h1 : (cLbr == cColon) = false := by decide
+    have h2 : (cRbr == cColon) = false := by decide
+    have h3 : (cColon == cMinus) = false := by decide
+    have h4 : ¬ cRbr = cMinus := by decide
+    simp [g.head, h1, h2, h3, h4]
+  have hpre : (hasPrefix (cLbr :: (h ++ cRbr :: cColon :: ds)) [cMinus]
+      && !hasByte (cLbr :: (h ++ cRbr :: cColon :: ds)) cColon) = false := by
+    simp [(hasByte_iff _ _).mpr hmem]
+  have := validate_of_split _ h ds (valOf ds) (by simp) hneg' hpre hsp g.atoi g.lo g.hi
+  rw [this]
+  simp only [resultOf]
+  cases h with
+  | nil => exact absurd rfl hne
+  | cons x xs => simp
+
+
+/-! ## rejected classes -/
+
+/-- zero and every value above 65535 — of any magnitude, including numerals that do not fit a
+machine integer — are `ErrPortOutOfRange` (`:port` and `host:port` forms) -/
+theorem vp_reject_out_of_range (h ds : Bytes) (hne : ds ≠ []) (hd : allDigits ds)
+    (hv : valOf ds = 0 ∨ 65535 < valOf ds) (hc : cColon ∉ h) (hl : cLbr ∉ h) (hr : cRbr ∉ h) :
+    validatePort (h ++ cColon :: ds) = .error .outOfRange := by
+  have c1 : cColon ∉ ds := allDigits_not_mem hd (by decide)
+  have c2 : cLbr ∉ ds := allDigits_not_mem hd (by decide)
+  have c3 : cRbr ∉ ds := allDigits_not_mem hd (by decide)
+  have hmem : cColon ∈ h ++ cColon :: ds := by simp
+  have hnorm : normalise (h ++ cColon :: ds) = h ++ cColon :: ds := by simp [normalise, (hasByte_iff _ _).mpr hmem]
+  have hsp := split_plain h ds hc hl hr c1 c2 c3
+  have hhead : (ds.head? == some cMinus) = false := by
+    cases ds with
+    | nil => rfl
+    | cons x xs =>
+      have : x ≠ cMinus := digit_ne (hd x (by simp)) (by decide)
+      simpa using this
+  have hcm : (cColon == cMinus) = false := by decide
+  have hneg : containsSub (h ++ cColon :: ds) [cColon, cMinus] = false := by
+    rw [containsSub_two_append, containsSub_two_false _ _ _ hc, containsSub_two_cons, containsSub_two_false _ _ _ c1]
+    simp [hhead, hcm]
+  have he : (h ++ cColon :: ds).isEmpty = false := by cases h <;> simp
+  have hall : ds.all isDigit = true := by rw [List.all_eq_true]; exact hd
+  have hdne : ds.isEmpty = false := by cases ds <;> simp_all
+  simp only [validatePort, validatePortG, he, hneg, (hasByte_iff _ _).mpr hmem, hnorm, hsp]
+  rw [atoi_digits ds hne hd]
+  by_cases hbig : valOf ds < 2 ^ 63
+  · simp only [hbig, if_true]
+    rcases hv with h0 | h1
+    · simp [h0]
+    · have : ¬ ((valOf ds : Int) < 1) := by omega
+      have h2 : ((valOf ds : Int) > 65535) := by omega
+      simp [this, h2]
+  · simp [hbig, hall, hdne]
+
+/-- a negative port is `ErrInvalidFormat`, whatever the host part looks like -/
+theorem vp_reject_negative (a p : Bytes) :
+    validatePort (a ++ cColon :: cMinus :: p) = .error .invalidFormat := by
+  have he : (a ++ cColon :: cMinus :: p).isEmpty = false := by cases a <;> simp
+  have hneg : containsSub (a ++ cColon :: cMinus :: p) [cColon, cMinus] = true := by
+    rw [containsSub_two_append, containsSub_two_cons]; simp
+  simp [validatePort, validatePortG, he, hneg]
+
+/-! ## round trip, for **every** accepted input -/
+
+/-- what acceptance means: the normalised input split into `(h, p)`, `p` parsed to `n ∈ 1…65535` -/
+theorem accepted_inv (s r : Bytes) (hv : validatePort s = .ok r) :
+    ∃ h p, ∃ n : Int, s ≠ [] ∧ containsSub s [cColon, cMinus] = false ∧ splitHostPort (normalise s) = .ok (h, p)
+      ∧ atoi p = some n ∧ 1 ≤ n ∧ n ≤ 65535 ∧ r = resultOf true h p := by
+  simp only [validatePort, validatePortG] at hv
+  split at hv
+  · simp at hv
+  · rename_i hne
+    split at hv
+    · simp at hv
+    · rename_i hneg
+      cases hsp : splitHostPort (normalise s) with
+      | error e => simp [hsp] at hv
+      | ok hp =>
+        obtain ⟨h, p⟩ := hp
+        simp only [hsp] at hv
+        cases hat : atoi p with
+        | none => simp only [hat] at hv; split at hv <;> simp at hv
+        | some n =>
+          simp only [hat] at hv
+          split at hv
+          · simp at hv
+          · rename_i hr
+            simp at hv
+            simp only [Bool.or_eq_true, not_or, Bool.not_eq_true] at hneg
+            refine ⟨h, p, n, ?_, hneg.1, rfl, hat, ?_, ?_, hv.symm⟩
+            · intro e; simp [e] at hne
+            · simp at hr; omega
+            · simp at hr; omega
+
+/-- re-validating a result `h:p` / `:p` built from a colon-free host -/
+theorem validate_plain_result (h p : Bytes) (n : Int) (hc : cColon ∉ h) (hl : cLbr ∉ h) (hr : cRbr ∉ h)
+    (pc : cColon ∉ p) (pl : cLbr ∉ p) (pr : cRbr ∉ p) (hat : atoi p = some n) (hlo : 1 ≤ n) (hhi : n ≤ 65535) :
+    validatePort (h ++ cColon :: p) = .ok (h ++ cColon :: p) ∧ splitHostPort (h ++ cColon :: p) = .ok (h, p) := by
+  have hmem : cColon ∈ h ++ cColon :: p := by simp
+  have hnorm : normalise (h ++ cColon :: p) = h ++ cColon :: p := by simp [normalise, (hasByte_iff _ _).mpr hmem]
+  have hsp := split_plain h p hc hl hr pc pl pr
+  have hcm : (cColon == cMinus) = false := by decide
+  have hneg : containsSub (h ++ cColon :: p) [cColon, cMinus] = false := by
+    rw [containsSub_two_append, containsSub_two_false _ _ _ hc, containsSub_two_cons, containsSub_two_false _ _ _ pc]
+    simp [atoi_pos_head p n hat hlo, hcm]
+  have hpre : (hasPrefix (h ++ cColon :: p) [cMinus] && !hasByte (h ++ cColon :: p) cColon) = false := by
+    simp [(hasByte_iff _ _).mpr hmem]
+  obtain ⟨m, rfl⟩ : ∃ m : Nat, n = m := ⟨n.toNat, by omega⟩
+  have := validate_of_split _ h p m (by simp) hneg hpre (by rw [hnorm]; exact hsp) hat (by omega) (by omega)
+  refine ⟨?_, hsp⟩
+  rw [this]
+  simp only [resultOf, joinHostPort, (hasByte_false_iff _ _).mpr hc]
+  cases h <;> simp
+
+/-- **Round trip (C20, last sentence) for every accepted input.** If `ValidatePort s` returns `r`,
+then `r` denotes the host and port the input was split into, `net.SplitHostPort r` gives back
+exactly that host and port, and a second validation accepts `r` and returns it unchanged. -/
+theorem vp_roundtrip (s r : Bytes) (hv : validatePort s = .ok r) :
+    ∃ h p, splitHostPort (normalise s) = .ok (h, p) ∧ splitHostPort r = .ok (h, p) ∧ validatePort r = .ok r := by
+  obtain ⟨h, p, n, hne, hneg, hsp, hat, hlo, hhi, rfl⟩ := accepted_inv s r hv
+  obtain ⟨⟨pc, pl, pr, hl, hr⟩, hform⟩ := split_ok_inv _ _ _ hsp
+  refine ⟨h, p, hsp, ?_⟩
+  by_cases hcol : cColon ∈ h
+  · -- the host contains a colon: only the bracketed form produces it; the result keeps the brackets
+    rcases hform with ⟨_, hno⟩ | hx
+    · exact absurd hcol hno
+    · have hhne : h ≠ [] := by intro e; simp [e] at hcol
+      have hres : resultOf true h p = cLbr :: (h ++ cRbr :: cColon :: p) := by
+        simp only [resultOf, joinHostPort, (hasByte_iff _ _).mpr hcol]
+        cases h with
+        | nil => exact absurd rfl hhne
+        | cons x xs => simp
+      rw [hres]
+      have hnorm : normalise s = s := by
+        by_cases hb : hasByte s cColon = true
+        · simp [normalise, hb]
+        · have hx' := hx
+          simp only [normalise, hb, if_false] at hx'
+          have : cColon = cLbr := by simpa using congrArg List.head? hx'
+          exact absurd this (by decide)
+      have hnegh : containsSub h [cColon, cMinus] = false := by
+        rw [← hnorm, hx, containsSub_two_cons, containsSub_two_append] at hneg
+        simp only [Bool.or_eq_false_iff] at hneg
+        exact hneg.2.1.1
+      obtain ⟨m, rfl⟩ : ∃ m : Nat, n = m := ⟨n.toNat, by omega⟩
+      have hsp2 := split_bracket h p hl hr pc pl pr
+      refine ⟨hsp2, ?_⟩
+      have hmem : cColon ∈ cLbr :: (h ++ cRbr :: cColon :: p) := by simp
+      have hnorm2 : normalise (cLbr :: (h ++ cRbr :: cColon :: p)) = cLbr :: (h ++ cRbr :: cColon :: p) := by
+        simp only [normalise, (hasByte_iff _ _).mpr hmem, if_true]
+      have h1 : (cLbr == cColon) = false := by decide
+      have h2 : (cRbr == cColon) = false := by decide
+      have h3 : (cColon == cMinus) = false := by decide
+      have h4 : ¬ cRbr = cMinus := by decide
+      have hneg' : containsSub (cLbr :: (h ++ cRbr :: cColon :: p)) [cColon, cMinus] = false := by
+        rw [containsSub_two_cons, containsSub_two_append, hnegh, containsSub_two_cons, containsSub_two_cons,
+          containsSub_two_false _ _ _ pc]
+        simp [atoi_pos_head p m hat hlo, h1, h2, h3, h4]
+      have hpre : (hasPrefix (cLbr :: (h ++ cRbr :: cColon :: p)) [cMinus]
+          && !hasByte (cLbr :: (h ++ cRbr :: cColon :: p)) cColon) = false := by
+        simp [(hasByte_iff _ _).mpr hmem]
+      have := validate_of_split _ h p m (by simp) hneg' hpre (by rw [hnorm2]; exact hsp2) hat (by omega) (by omega)
+      rw [this, hres]
+  · -- colon-free host: the result is `h:p` (or `:p`)
+    have hres : resultOf true h p = h ++ cColon :: p := by
+      simp only [resultOf, joinHostPort, (hasByte_false_iff _ _).mpr hcol]
+      cases h <;> simp
+    rw [hres]
+    have := validate_plain_result h p n hcol hl hr pc pl pr hat hlo hhi
+    exact ⟨this.2, this.1⟩
+
+/-- what was wrong with the pinned code (finding C20-F1): it accepted `[::1]:8080` and returned a
+string that it rejects itself -/
+theorem original_code_breaks_roundtrip :
+    ∃ s r, validatePortG false s = .ok r ∧ validatePortG false r = .error .invalidFormat := by
+  exact ⟨[91, 58, 58, 49, 93, 58, 56, 48, 56, 48], [58, 58, 49, 58, 56, 48, 56, 48], rfl, rfl⟩
 
 end GoSup.Props.C20
